@@ -16,6 +16,9 @@ What the Go code does, and how it is modelled
   way).
 * `firstErr` is whichever failing goroutine reports first: the model returns the list of all
   cluster errors (`Outcome.err`), Go returns one of them.
+* The model describes the code after fix d542fa4 (F10): a returned uuid that is not in `todo` any
+  more (already delivered, second copy in the page, never requested) makes the cluster fail with 502
+  (`accepts`).
 * The per-cluster loop is modelled with fuel `|todo|`; `Proofs/C20` shows this fuel is never
   exhausted (`Stop.starved` is unreachable), which is the termination argument.
 Text is `List Char` throughout so that the kernel can evaluate the model (`decide`).
@@ -202,6 +205,13 @@ def CRes.push (req : Opts) (resp : Resp) (items : List Obj) (r : CRes) : CRes :=
 def remaining (todo : List Uuid) (items : List Obj) : List Uuid :=
   todo.filter (fun u => decide (u ∉ pageUuids items))
 
+/-- The `for _, uuid := range done` loop of list.go (after fix d542fa4): every returned uuid must
+still be in `todo` when it is reached — it is deleted then, so a second copy in the same page, an
+already delivered uuid and a never requested one all make the cluster fail. -/
+def accepts : List Uuid → List Uuid → Bool
+  | _, [] => true
+  | todo, u :: us => decide (u ∈ todo) && accepts (todo.filter (fun v => decide (v ≠ u))) us
+
 def clusterLoop (B : Backend) (ropts : Opts) : Nat → List Uuid → Nat → CRes
   | 0, todo, _ => if todo = [] then ⟨[], [], .done⟩ else ⟨[], [], .starved⟩
   | fuel + 1, todo, idx =>
@@ -213,6 +223,9 @@ def clusterLoop (B : Backend) (ropts : Opts) : Nat → List Uuid → Nat → CRe
     | .page items =>
       let todo' := remaining todo items
       if items = [] then ⟨[[]], [(req, .page [])], .done⟩
+      -- an item that was not requested or was already returned: 502 (the page was merged already)
+      else if accepts todo (pageUuids items) = false then ⟨[items], [(req, .page items)], .failed 502⟩
+      -- "cannot make progress" (unreachable for an accepted non-empty page, kept as in the code)
       else if todo'.length = todo.length then ⟨[items], [(req, .page items)], .failed 502⟩
       else (clusterLoop B ropts fuel todo' (idx + 1)).push req (.page items) items
 
